@@ -13,6 +13,8 @@
 //   t <block id of _table, 0 = nullptr> <_capacity> <_size> <bucket>=<block id>:<key>:<value>,<block id>:<key>:<value> ...
 // (non-empty buckets only, every chain head to tail; the chain-level comparison drops these lines).
 // After the last op the map goes out of scope: line "dtor", then the destructor's event line.
+// Raw scripts (compared with the pointer-level model only) additionally use the op "rh": the private rehash() is
+// called directly, so that it also runs at loads where the new capacity is not a multiple of the old one.
 // `harness --sizes` prints sizeof(chain *) and sizeof(chain) (parameters of the model).
 #include <unordered_map>
 #include <algorithm>
@@ -207,6 +209,10 @@ static void body(const vh::Lines &ls) {
 				std::vector<std::pair<uint64_t, uint64_t>> want(ref.begin(), ref.end());
 				std::sort(seen.begin(), seen.end()); std::sort(want.begin(), want.end());
 				if(seen != want) vh::oracle("refmap", "iteration yields %zu entries, reference has %zu (or contents differ)", seen.size(), want.size());
+			} else if(o == "rh") {
+				// raw scripts only (pointer-level model): the private rehash() called directly, at any load
+				m.rehash();
+				printf("u\n");
 			} else if(o == "sz") {
 				printf("v %zu\n", m.size());
 				if(m.size() != ref.size()) vh::oracle("refmap", "size() = %zu, reference %zu", m.size(), ref.size());
